@@ -749,16 +749,25 @@ func (t *streamableHTTPClientTransport) connectGetSSE(ctx context.Context) error
 
 // Handle GET SSE event stream
 func (t *streamableHTTPClientTransport) handleGetSSEEvents(ctx context.Context, body io.ReadCloser) error {
-	scanner := bufio.NewScanner(body)
+	// bufio.Reader, not bufio.Scanner: a Scanner gives up on any line longer than 64 KiB, which ended
+	// the listening stream for good on a single large message.
+	reader := bufio.NewReader(body)
 	var eventID, eventData string
 
-	for scanner.Scan() {
+	for {
+		rawLine, readErr := reader.ReadString('\n')
+		if readErr != nil && rawLine == "" {
+			if readErr == io.EOF {
+				return nil
+			}
+			return fmt.Errorf("failed to read SSE event stream: %w", readErr)
+		}
 		select {
 		case <-ctx.Done():
 			return ctx.Err()
 		default:
 			// Process SSE line
-			line := scanner.Text()
+			line := strings.TrimRight(rawLine, "\r\n")
 
 			// Skip empty lines
 			if line == "" {
@@ -782,12 +791,6 @@ func (t *streamableHTTPClientTransport) handleGetSSEEvents(ctx context.Context, 
 			}
 		}
 	}
-
-	if err := scanner.Err(); err != nil {
-		return fmt.Errorf("failed to read SSE event stream: %w", err)
-	}
-
-	return nil
 }
 
 // Process SSE event.
